@@ -377,6 +377,31 @@ func TestVerifP2cHealth(t *testing.T) {
 			}
 		}
 	})
+	// closely spaced failures (after a first successful completion): the score must still
+	// fall by at least one point per failure, so 600 failures always suffice
+	vrt.RunOnce(vrt.Options{Name: "p2c-health-fast", Horizon: 1 << 30}, func(r *vrt.Run) {
+		for _, gap := range []time.Duration{time.Microsecond, time.Millisecond, 5 * time.Millisecond, 25 * time.Millisecond, 300 * time.Millisecond} {
+			s := newPcSys(r, 1)
+			conn := s.p.conns[0]
+			res, _ := s.p.Pick(balancer.PickInfo{Ctx: context.Background()})
+			vrt.Advance(3 * time.Millisecond)
+			res.Done(balancer.DoneInfo{})
+			after := -1
+			for k := 1; k <= 600; k++ {
+				res, _ := s.p.Pick(balancer.PickInfo{Ctx: context.Background()})
+				vrt.Advance(gap)
+				res.Done(balancer.DoneInfo{Err: status.Error(codes.Unavailable, "x")})
+				if !conn.healthy() {
+					after = k
+					break
+				}
+			}
+			c.Eval(fmt.Sprintf("fast gap=%v", gap), func() any { return map[string]any{"gap": gap.String(), "unhealthy_after_failures": after, "score": conn.success} })
+			if after < 0 {
+				c.Violation(fmt.Sprintf("fast gap=%v", gap), "never unhealthy (fast)", fmt.Sprintf("backend failing 600 calls in a row %v apart is still healthy (score %d)", gap, conn.success))
+			}
+		}
+	})
 	c.Done()
 }
 
